@@ -157,6 +157,7 @@ static uint64_t g_nrpc = 0, g_irpc = 0;
 static int g_replaying = 0;
 static uint64_t g_replay_diverged = 0;
 static int32_t g_seg_steps = 0; /* steps taken by current thread in current segment */
+static int g_seg_vol = 0;       /* segment ended by a voluntary yield AT its last step */
 
 /* per-region table (function pointer -> counts) */
 typedef struct {
@@ -344,12 +345,15 @@ static void run_team(Team *t) {
         g_cur = &t->th[nxt];
         g_team = g_cur->team_top;
         g_seg_steps = 0;
+        g_seg_vol = 0;
         if (g_in_window)
             g_countdown = next_interval();
         swapcontext(&g_sched_ctx, &g_cur->ctx);
-        /* back on the scheduler */
+        /* back on the scheduler.  A segment that ended because the thread finished or
+         * blocked did NOT yield at its last step: record one step more so that replay,
+         * which yields when the count is exhausted, never yields there spuriously. */
         if (!g_replaying)
-            trace_push(nxt, g_seg_steps);
+            trace_push(nxt, g_seg_steps + (g_seg_vol ? 0 : 1));
         g_cur = NULL;
         if (g_st.steps > g_cfg.max_steps && g_cfg.max_steps) {
             set_err(ERR_STEP_CAP, "step cap exceeded");
@@ -375,11 +379,13 @@ static inline void step_point(int at_access) {
             return;
         if (at_access)
             g_st.preemptions++;
+        g_seg_vol = 1;
         yield_to_sched();
         return;
     }
     if (at_access) {
         g_st.preemptions++;
+        g_seg_vol = 1;
         yield_to_sched();
         return;
     }
@@ -390,6 +396,7 @@ static inline void step_point(int at_access) {
     case STRAT_REVERSE:
         return;
     default:
+        g_seg_vol = 1;
         yield_to_sched();
     }
 }
@@ -629,10 +636,13 @@ void GOMP_barrier(void) {
         me->state = ST_RUNNABLE;
         /* last arriver: scheduling point */
         if (g_replaying) {
-            if (--g_rp_left <= 0)
+            if (--g_rp_left <= 0) {
+                g_seg_vol = 1;
                 yield_to_sched();
+            }
         } else if (!(g_cfg.strategy == STRAT_RTC_PERM || g_cfg.strategy == STRAT_RTC_ID ||
                      g_cfg.strategy == STRAT_REVERSE)) {
+            g_seg_vol = 1;
             yield_to_sched();
         }
         return;
